@@ -105,3 +105,34 @@ func init() {
 		return &TupleV{Elems: []SV{p, er}}
 	}
 }
+
+// protobuf well-known types used by the plugin protocol (C26). A Timestamp / Duration message is an immutable box
+// holding an instant / a length: timestamppb.New(t) and AsTime are exact for every time.Time (seconds + nanoseconds
+// of the instant; AsTime yields the instant in UTC), durationpb.New(d) and AsDuration are exact for every
+// time.Duration; a nil message reads as the Unix epoch / zero (the generated getters' nil behaviour).
+func init() {
+	tsns := func(p *Term) *Term { return ufun("ext.timestamppb.ns", []string{SInt}, SInt, p) }
+	durns := func(p *Term) *Term { return ufun("ext.durationpb.ns", []string{SInt}, SInt, p) }
+	externs["google.golang.org/protobuf/types/known/timestamppb.New"] = func(e *Exec, st *BState, x *ssa.Call, args []SV) SV {
+		p := e.allocAddr(st)
+		tv := args[0].(*StructV)
+		e.assume(eq(tsns(p), scal(tv.Fields[0])))
+		return &PtrV{Ty: x.Type(), Addr: p}
+	}
+	externs["(*google.golang.org/protobuf/types/known/timestamppb.Timestamp).AsTime"] = func(e *Exec, st *BState, x *ssa.Call, args []SV) SV {
+		p := args[0].(*PtrV).Addr
+		ns := ite(eq(p, intLit(0)), intLit(0), tsns(p))
+		return &StructV{Ty: x.Type(), Fields: []SV{&Scalar{T: ns}, &Scalar{T: e.fresh("aux.utc", SInt)}}}
+	}
+	externs["google.golang.org/protobuf/types/known/durationpb.New"] = func(e *Exec, st *BState, x *ssa.Call, args []SV) SV {
+		p := e.allocAddr(st)
+		e.assume(eq(durns(p), scal(args[0])))
+		return &PtrV{Ty: x.Type(), Addr: p}
+	}
+	externs["(*google.golang.org/protobuf/types/known/durationpb.Duration).AsDuration"] = func(e *Exec, st *BState, x *ssa.Call, args []SV) SV {
+		p := args[0].(*PtrV).Addr
+		d := durns(p)
+		e.assume(and(le(bigLit("MIN64"), d), le(d, bigLit("MAX64"))))
+		return &Scalar{T: ite(eq(p, intLit(0)), intLit(0), d), Ty: x.Type()}
+	}
+}
